@@ -707,9 +707,9 @@ func c14ReadersVsInserter(r *simrt.Run, w *nomsim.World, wl *nomsim.Workload) {
 		parts := bytes.SplitN([]byte(v), []byte{0}, 3)
 		r.Fail(string(parts[0]), string(parts[1]), "%s (schedule of %d steps)", parts[2], s.Steps)
 	}
-	r.Logf("schedule: %d steps, %d readers", s.Steps, nReaders)
+	r.Logf("schedule: %d readers", nReaders)
 	for _, st := range s.Trace {
-		r.Logf("sched %s", st)
+		logSched(r, st)
 	}
 	// every listener that stayed heard of every inserted momentum exactly once, in order; one that left
 	// heard a prefix
@@ -884,9 +884,9 @@ func c14ReadersVsReorg(r *simrt.Run, w *nomsim.World, wl *nomsim.Workload) {
 		parts := bytes.SplitN([]byte(v), []byte{0}, 3)
 		r.Fail(string(parts[0]), string(parts[1]), "%s (schedule of %d steps)", parts[2], sc.Steps)
 	}
-	r.Logf("reorg of depth %d under %d readers: idx=%d err=%v, %d steps", depth, nReaders, idx, ierr, sc.Steps)
+	r.Logf("reorg of depth %d under %d readers: idx=%d err=%v", depth, nReaders, idx, ierr)
 	for _, st := range sc.Trace {
-		r.Logf("sched %s", st)
+		logSched(r, st)
 	}
 	if ierr != nil || idx != 0 {
 		r.Fail("honest-batch-refused", "under-readers", "the observer refused the longer branch [%d..%d] while readers ran: idx=%d err=%v", base+1, win.Height(), idx, ierr)
@@ -1027,9 +1027,9 @@ func c14PillarVsGossip(r *simrt.Run, w *nomsim.World, wl *nomsim.Workload) {
 			}
 			races++
 			r.Probes["schedule-steps"] += sc.Steps
-			r.Logf("pillar/gossip race: A %d -> %d, own momentums +%d, %d gossiped blocks, %d steps", h0, a.Height(), a.OwnMomentums-own0, len(gossip), sc.Steps)
+			r.Logf("pillar/gossip race: A %d -> %d, own momentums +%d, %d gossiped blocks", h0, a.Height(), a.OwnMomentums-own0, len(gossip))
 			for _, st := range sc.Trace {
-				r.Logf("sched %s", st)
+				logSched(r, st)
 			}
 			poolOnHead(r, a, []types.Address{u.Address, o.Address}, "after a pillar/gossip race")
 			// B follows A's chain (its own pool is forced over where it conflicts) and must accept it
@@ -1058,6 +1058,17 @@ func c14PillarVsGossip(r *simrt.Run, w *nomsim.World, wl *nomsim.Workload) {
 	r.NonTrivial = races >= 1
 	r.Finger = fmt.Sprintf("pvg-%s", r.Digest())
 	r.Sample["races"] = races
+}
+
+// logSched puts one schedule step into the event log. Steps of goroutines the node itself spawns ("helper":
+// the pillar's task runner) are left out: how many lock sites such a goroutine passes depends on map
+// iteration inside the node (observed: the same seed gave 286 or 328 steps with identical decisions and an
+// identical outcome), while every CHOICE of the scheduler - made only between two or more runnable
+// goroutines - is on the tape.
+func logSched(r *simrt.Run, st string) {
+	if !strings.HasPrefix(st, "helper@") {
+		r.Logf("sched %s", st)
+	}
 }
 
 func sortAddrs(a []types.Address) {
@@ -1135,9 +1146,9 @@ func c14PillarVsSync(r *simrt.Run, w *nomsim.World, wl *nomsim.Workload) {
 				}
 				races++
 				r.Probes["schedule-steps"] += sc.Steps
-				r.Logf("race at slot %d: A height %d, batch [%d..%d] -> idx=%d err=%v, own momentum err=%v, %d steps", s, f.A.Height(), base+1, f.B.Height(), idx, ierr != nil, f.A.LastOwnMomentumErr != nil, sc.Steps)
+				r.Logf("race at slot %d: A height %d, batch [%d..%d] -> idx=%d err=%v, own momentum err=%v", s, f.A.Height(), base+1, f.B.Height(), idx, ierr != nil, f.A.LastOwnMomentumErr != nil)
 				for _, st := range sc.Trace {
-					r.Logf("sched %s", st)
+					logSched(r, st)
 				}
 				// a node leaves its chain only for a strictly longer one: if its own momentum went in and it
 				// nevertheless ends on the delivered branch, that branch must end above the own momentum
